@@ -74,6 +74,7 @@ TextOf(name, n) ==
       [] name = "TW"   -> <<Tag(n)>> \o Run(W - 1, 97)
       [] name = "TW1"  -> <<Tag(n)>> \o Run(W, 97)
       [] name = "T2W1" -> <<Tag(n)>> \o Run(2 * W, 97)
+      [] name = "T5W"  -> <<Tag(n)>> \o Run(5 * W - 1, 97)                         \* one line that wraps to five rows (taller than a 4-row terminal)
       [] name = "TnlT" -> <<Tag(n), NL, Tag(n), 33>>
       [] name = "TnnT" -> <<Tag(n), NL, NL, Tag(n), 33>>
       [] name = "nlT"  -> <<NL, Tag(n)>>
